@@ -1,6 +1,7 @@
 package main
 
 import (
+	"regexp"
 	"encoding/json"
 	"fmt"
 	"os"
@@ -37,7 +38,14 @@ type Run struct {
 	vacuous               []string
 }
 
+var retSfxRe = regexp.MustCompile(`@ret\d+`)
+
+// normName drops the return-point ordinal so that names are stable when a
+// harmless edit adds or removes a return statement.
+func normName(name string) string { return retSfxRe.ReplaceAllString(name, "") }
+
 func (r *Run) knownFinding(name string) *KnownFinding {
+	name = normName(name)
 	for i := range r.Known {
 		k := &r.Known[i]
 		if k.Status == "fixed" {
@@ -64,6 +72,7 @@ func (r *Run) inLedger(fn, obl string) (bool, string) {
 	if e == nil {
 		return false, ""
 	}
+	obl = normName(obl)
 	for _, o := range e.Obls {
 		if o == obl {
 			return true, e.SSAHash
@@ -287,12 +296,22 @@ func lastSexp(s string) string {
 func (r *Run) updateLedger(results []*FuncResult, path string) {
 	for _, fr := range results {
 		e := &LedgerEntry{SSAHash: fr.SSAHash}
+		good := map[string]bool{}
 		for _, o := range fr.Obls {
 			if o.Kind == "cover" || o.Case != "" || o.Canary || o.Result == nil {
 				continue
 			}
-			if o.Result.Status == "unsat" && o.Result.Seconds < 2.0 {
-				e.Obls = append(e.Obls, o.Name)
+			n := normName(o.Name)
+			ok := o.Result.Status == "unsat" && o.Result.Seconds < 2.0
+			if prev, seen := good[n]; seen {
+				good[n] = prev && ok
+			} else {
+				good[n] = ok
+			}
+		}
+		for n, ok := range good {
+			if ok {
+				e.Obls = append(e.Obls, n)
 			}
 		}
 		sort.Strings(e.Obls)
